@@ -129,6 +129,14 @@ func (g *gen) declLocal() string {
 			val = fmt.Sprintf("%s{%s, %s, %s, []int{%s, 2, 3}}", typ, g.IntExpr(1), g.StrExpr(1), g.floatExpr(1), g.IntExpr(1))
 		}
 		g.Tag("struct")
+	case k == 9 && g.typeName != "" && g.Bool("slice-of-struct"):
+		typ = "[]" + g.typeName
+		val = fmt.Sprintf(`[]%s{%s{%s, "a", 0.5, nil}, %s{2, %s, %s, []int{1}}}`, g.typeName, g.typeName, g.IntExpr(1), g.typeName, g.StrExpr(1), g.floatExpr(1))
+		g.Tag("slice-of-struct")
+	case k == 9 && g.Bool("map-of-slice"):
+		typ = "map[string][]int"
+		val = fmt.Sprintf(`map[string][]int{"a": []int{1, %s}, "b": nil}`, g.IntExpr(1)) // elided element types are unimplemented in classic
+		g.Tag("map-of-slice")
 	default:
 		typ = "[]string"
 		val = fmt.Sprintf(`[]string{"p", %s, "q"}`, g.StrExpr(1))
@@ -158,6 +166,11 @@ func (g *gen) assign() string {
 		return g.record()
 	}
 	v := vars[g.Pick(len(vars), "assign-var")]
+	if ints := g.Vars("int", true); len(ints) >= 2 && g.Chance(1, 8, "swap") {
+		g.Tag("parallel-assign")
+		a, b := ints[0], ints[len(ints)-1]
+		return fmt.Sprintf("%s, %s = %s, (%s + %s)\n", a.Name, b.Name, b.Name, a.Name, g.IntExpr(1))
+	}
 	switch v.Type {
 	case "int":
 		switch g.Pick(4, "assign-int") {
@@ -216,7 +229,25 @@ func (g *gen) assign() string {
 		default:
 			return fmt.Sprintf("rec.E(%d, %s[%s], len(%s))\n", g.Ev(), v.Name, key, v.Name)
 		}
+	case "map[string][]int":
+		g.Tag("map-of-slice-op")
+		key := g.OneOf("ms-key", `"a"`, `"b"`, `"zz"`)
+		if g.Bool("ms-op") {
+			return fmt.Sprintf("%s[%s] = append(%s[%s], %s)\nrec.E(%d, %s)\n", v.Name, key, v.Name, key, g.IntExpr(1), g.Ev(), v.Name)
+		}
+		return fmt.Sprintf("rec.E(%d, %s[%s], len(%s[%s]), len(%s))\n", g.Ev(), v.Name, key, v.Name, key, v.Name)
 	default:
+		if g.typeName != "" && v.Type == "[]"+g.typeName {
+			g.Tag("slice-of-struct-op")
+			switch g.Pick(3, "ss-op") {
+			case 0:
+				return fmt.Sprintf("%s[%d].%s = %s\nrec.E(%d, %s)\n", v.Name, g.Pick(2, "ss-idx"), g.fa, g.IntExpr(1), g.Ev(), v.Name)
+			case 1:
+				return fmt.Sprintf("%s = append(%s, %s{%s, \"n\", 2.5, nil})\n", v.Name, v.Name, g.typeName, g.IntExpr(1))
+			default:
+				return fmt.Sprintf("rec.E(%d, %s[%d].%s, %s[0].%s, len(%s))\n", g.Ev(), v.Name, g.Pick(2, "ss-idx"), g.fb, v.Name, g.fd, v.Name)
+			}
+		}
 		if v.Type == g.typeName && g.typeName != "" {
 			g.Tag("struct-op")
 			switch g.Pick(5, "struct-op") {
@@ -543,7 +574,17 @@ func (g *gen) closureStmt() string {
 	}
 }
 
-func (g *gen) argOf(typ string) string { return g.expr(typ, 1) }
+func (g *gen) argOf(typ string) string {
+	if typ == "func" {
+		ints := g.Vars("int", false)
+		q := g.Local("q")
+		if len(ints) > 0 {
+			return fmt.Sprintf("func(%s int) int { return %s*%d + %s }", q, q, g.Int(-2, 4, "fl-k"), ints[g.Pick(len(ints), "fl-var")].Name)
+		}
+		return fmt.Sprintf("func(%s int) int { return %s - 1 }", q, q)
+	}
+	return g.expr(typ, 1)
+}
 
 func (g *gen) callStmt() string {
 	if len(g.funcs) == 0 {
@@ -626,7 +667,7 @@ func (g *gen) helperFunc() {
 		g.inHelper = false
 		g.RestoreScopes(saved)
 	}()
-	switch g.Pick(5, "helper-kind") {
+	switch g.Pick(6, "helper-kind") {
 	case 0, 1: // (int, float64|string) int with control flow and early returns
 		p2 := g.OneOf("helper-p2", "float64", "string", "bool")
 		g.inFunc = "int"
@@ -648,6 +689,9 @@ func (g *gen) helperFunc() {
 		k := g.Int(-2, 5, "rec-k")
 		g.Decls = append(g.Decls, fmt.Sprintf("func %s(n int) int {\n\tif n <= 0 {\n\t\treturn %d\n\t}\n\treturn n*2 + %s(n%%7-1)\n}", name, k, name))
 		g.funcs = append(g.funcs, helper{name, []string{"int"}, "int", "recursive"})
+	case 4: // function-typed parameter
+		g.Decls = append(g.Decls, fmt.Sprintf("func %s(f func(int) int, n int) int {\n\treturn f(n) + f(n+%d)*2\n}", name, g.Int(0, 3, "ap-k")))
+		g.funcs = append(g.funcs, helper{name, []string{"func", "int"}, "int", "func-param"})
 	default: // closure maker
 		g.Decls = append(g.Decls, fmt.Sprintf("func %s(k int) func() int {\n\tc := k\n\treturn func() int {\n\t\tc += k + %d\n\t\treturn c\n\t}\n}", name, g.Int(0, 3, "mk-k")))
 		g.funcs = append(g.funcs, helper{name, []string{"int"}, "func", "closure-maker"})
